@@ -320,8 +320,9 @@ def norm_fact(f):
             t, v = mk("eq", *t.args), 1 - v
             continue
         break
-    if rel == "notin" and len(v) == 1 and False:
-        pass
+    if rel == "notin" and v == (0,) and t.op != "discr" and t.op != "int":
+        # switch on a boolean: the otherwise edge of `switchInt(b) [0 -> ..]` means b is true
+        return norm_fact((t, "eq", 1))
     return (t, rel, v)
 
 
